@@ -261,4 +261,101 @@ theorem step_semi (hwf : WF T) {cfg : Cfg} (hL : Legal T cfg) {s t l x y : Name}
         · exact (key c c' hca.1 hca'.1 hc hc' h).elim
         · exact (key c' c hca'.1 hca.1 hc' hc h).elim
 
+/-! ### stabilisation (set level) -/
+
+/-- additional chart data and well-formedness used by default entry -/
+structure Defaults (T : Tree) where
+  initial : Name → Option Name
+  /-- W4: compound states declare an initial child -/
+  w4 : ∀ z, T.kind z = some .compound → ∃ i, initial z = some i ∧ T.parent i = some z
+  /-- W3: history, basic and final states have no children (every parent is composite) -/
+  w3 : ∀ c z, T.parent c = some z → T.kind z = some .compound ∨ T.kind z = some .orthogonal
+
+def IsHistory (T : Tree) (z : Name) : Prop :=
+  T.kind z = some .shallowHistory ∨ T.kind z = some .deepHistory
+
+def Leaf (T : Tree) (cfg : Cfg) (z : Name) : Prop := cfg z ∧ ∀ c, T.parent c = some z → ¬ cfg c
+
+/-- no stabilisation step is available (repaired `_create_stabilization_step`), the
+    "final child of the root" case being excluded separately -/
+structure Stable (T : Tree) (D : Defaults T) (cfg : Cfg) : Prop where
+  no_hist : ∀ z, Leaf T cfg z → ¬ IsHistory T z
+  no_compound_leaf : ∀ z, Leaf T cfg z → T.kind z = some .compound → D.initial z = none
+  orth_complete : ∀ z, cfg z → T.kind z = some .orthogonal → ∀ c, T.parent c = some z → cfg c
+
+theorem semi_stable_legal (D : Defaults T) {cfg : Cfg} (hS : Semi T cfg) (hSt : Stable T D cfg) :
+    Legal T cfg := by
+  refine ⟨hS.root, hS.state, hS.up, ?_, hSt.orth_complete, ?_⟩
+  · intro z hz hk
+    -- there is an active child, otherwise z is a compound leaf with an initial state
+    by_cases hex : ∃ c, T.parent c = some z ∧ cfg c
+    · obtain ⟨c, hc, hca⟩ := hex
+      exact ⟨c, hc, hca, fun c' hc' hca' => hS.compound z hz hk c' c hc' hc hca' hca⟩
+    · exfalso
+      have hleaf : Leaf T cfg z := ⟨hz, fun c hc hca => hex ⟨c, hc, hca⟩⟩
+      obtain ⟨i, hi, _⟩ := D.w4 z hk
+      have := hSt.no_compound_leaf z hleaf hk
+      rw [this] at hi; cases hi
+  · intro s hs
+    -- an active history state would be a leaf (history states have no children)
+    have noch : IsHistory T s → False := by
+      intro hh
+      have hleaf : Leaf T cfg s := ⟨hs, fun c hc _ => by
+        rcases D.w3 c s hc with h | h <;> rcases hh with h' | h' <;> rw [h] at h' <;> cases h'⟩
+      exact hSt.no_hist s hleaf hh
+    exact ⟨fun h => noch (Or.inl h), fun h => noch (Or.inr h)⟩
+
+/-- default entry of the initial child of a compound leaf -/
+theorem semi_enter_initial {cfg : Cfg} (hS : Semi T cfg) {z i : Name}
+    (hleaf : Leaf T cfg z) (hi : T.parent i = some z) (hwf : WF T) :
+    Semi T (fun y => cfg y ∨ y = i) := by
+  refine ⟨Or.inl hS.root, ?_, ?_, ?_⟩
+  · rintro y (hy | hy)
+    · exact hS.state y hy
+    · rw [hy]; exact (hwf.parent_state i z hi).1
+  · rintro y p (hy | hy) hp
+    · exact Or.inl (hS.up y p hy hp)
+    · rw [hy, hi] at hp; cases hp; exact Or.inl hleaf.1
+  · intro w hw hk c c' hc hc' hca hca'
+    have hwc : cfg w := by
+      rcases hw with h | h
+      · exact h
+      · -- w = i is freshly entered: its children are not active (their parent i was not)
+        exfalso
+        rw [h] at hc
+        rcases hca with h1 | h1
+        · exact hleaf.2 i hi (hS.up c i h1 hc)
+        · rw [h1] at hc; exact Anc.irrefl hwf (Anc.base hc)
+    rcases hca with h1 | h1 <;> rcases hca' with h2 | h2
+    · exact hS.compound w hwc hk c c' hc hc' h1 h2
+    · -- c active before, c' = i : then w = z, but z was a leaf
+      rw [h2, hi] at hc'; cases hc'
+      exact absurd h1 (hleaf.2 c hc)
+    · rw [h1, hi] at hc; cases hc
+      exact absurd h2 (hleaf.2 c' hc')
+    · rw [h1, h2]
+
+/-- entering (some of) the children of an active orthogonal state -/
+theorem semi_enter_regions {cfg : Cfg} (hS : Semi T cfg) {z : Name} (hz : cfg z)
+    (hk : T.kind z = some .orthogonal) (hwf : WF T) (R : Name → Prop)
+    (hR : ∀ c, R c → T.parent c = some z) :
+    Semi T (fun y => cfg y ∨ R y) := by
+  refine ⟨Or.inl hS.root, ?_, ?_, ?_⟩
+  · rintro y (hy | hy)
+    · exact hS.state y hy
+    · exact (hwf.parent_state y z (hR y hy)).1
+  · rintro y p (hy | hy) hp
+    · exact Or.inl (hS.up y p hy hp)
+    · rw [hR y hy] at hp; cases hp; exact Or.inl hz
+  · intro w hw hkw c c' hc hc' hca hca'
+    -- a child of a compound state `w` cannot be one of the regions of the orthogonal `z`
+    have notR : ∀ d, T.parent d = some w → ¬ R d := by
+      intro d hd hRd
+      rw [hR d hRd] at hd; cases hd
+      rw [hk] at hkw; cases hkw
+    have h1 : cfg c := hca.resolve_right (notR c hc)
+    have h2 : cfg c' := hca'.resolve_right (notR c' hc')
+    have hwc : cfg w := hS.up c w h1 hc
+    exact hS.compound w hwc hkw c c' hc hc' h1 h2
+
 end LG
